@@ -64,7 +64,7 @@ def _val(v: str):
 
 
 def _slot(sp: str, v: str):
-    if sp == "-":
+    if sp in ("-", "-a"):
         return gen_ctx.Slot(None, None, False, _val(v))
     cls, opt, shape = sp.split(",", 2)
     if opt not in ("0", "1", "4", "5", "7"):
@@ -90,7 +90,7 @@ def parse_call_line(line: str) -> gen_ctx.Ctx:
             name, mode, specs, val = "return", g[1], g[2], g[3]
             if mode == "-" or val == "!":
                 continue
-        if mode == "T":
+        if mode in ("T", "TO"):
             sps = specs.split(";") if specs else []
             if not val.startswith("U:"):
                 raise ValueError("non-tuple value for tuple hint")
